@@ -66,6 +66,9 @@ class RefCloud:
         if problems:
             rec["verified"] = False
             self.problems.extend(problems)
+        if isinstance(fault, (list, tuple)) and fault[0] == "slow":
+            await asyncio.sleep(float(fault[1]))       # a slow but correct server
+            fault = None
         if fault == "timeout":
             await asyncio.sleep(10.0)
             raise httpx.ReadTimeout("timed out", request=request)
